@@ -157,17 +157,71 @@ impl M2 {
     }
 }
 
+// The fully symbolic versions of solve/inverse (8 matrix parts + 4 rhs parts symbolic) do not
+// finish (CBMC: > 20 min resp. out of memory).  They are therefore split into two bounded
+// slices that together exercise every operation of the routines:
+//   `_re`  : ALL real parts symbolic on the grid, every eps part == 0 (concrete):
+//            the real-part computation incl. pivot search/row exchange for every grid matrix,
+//            and "no derivative in => no derivative out";
+//   `_eps_tK`: real parts = row K of the concrete table `TAB`, ALL eps parts symbolic on the
+//            grid: the derivative computation.  One table row per harness (a single row
+//            already costs 1.5 - 5 min: ndarray's heap storage defeats constant folding);
+//            rows used: 1 (row exchange, pivot 2, det -2) and 3 (no exchange, pivot -2, det 2).
+// The determinant is additionally proved fully symbolic (thorough tier).
+
+/// concrete real parts: (A.re row-major, b.re)
+const TAB: [([[i64; 2]; 2], [i64; 2]); 8] = [
+    ([[2, 1], [1, 1]], [1, -2]),    // det  1, no exchange, pivot 2
+    ([[1, 2], [2, 2]], [2, 1]),     // det -2, exchange,    pivot 2
+    ([[0, 1], [-1, 2]], [-1, 2]),   // det  1, exchange (a00 == 0), pivot -1
+    ([[-2, 2], [1, -2]], [0, 1]),   // det  2, no exchange, pivot -2
+    ([[1, -1], [-1, -1]], [2, 2]),  // det -2, tie |a10| == |a00|: no exchange, pivot 1
+    ([[-1, 2], [2, 0]], [1, 1]),    // det -4, exchange,    pivot 2
+    ([[2, 0], [0, 2]], [-2, 1]),    // det  4, diagonal
+    ([[2, 2], [-2, 2]], [1, 0]),    // det  8, tie: no exchange
+];
+/// matrix with the real parts of table row `t` and symbolic grid eps parts
+fn tab_m2(t: usize) -> M2 {
+    let r = TAB[t].0;
+    let mut i = [[(0i64, 0i64); 2]; 2];
+    let mut d = [[Dual64::new(0.0, 0.0); 2]; 2];
+    let mut a = 0;
+    while a < 2 {
+        let mut b = 0;
+        while b < 2 {
+            let (e, fe) = gi();
+            i[a][b] = (r[a][b], e);
+            d[a][b] = Dual64::new(r[a][b] as f64, fe);
+            b += 1;
+        }
+        a += 1;
+    }
+    M2 { i, d }
+}
+/// matrix with symbolic grid real parts and eps == 0
+fn re_m2() -> M2 {
+    let mut i = [[(0i64, 0i64); 2]; 2];
+    let mut d = [[Dual64::new(0.0, 0.0); 2]; 2];
+    let mut a = 0;
+    while a < 2 {
+        let mut b = 0;
+        while b < 2 {
+            let (r, fr) = gi();
+            i[a][b] = (r, 0);
+            d[a][b] = Dual64::new(fr, 0.0);
+            b += 1;
+        }
+        a += 1;
+    }
+    M2 { i, d }
+}
+
 // ------------------------------------------------------------------ (b) solve
 /// x = LU::new(A)?.solve(b) is the exact solution: x_j == (adj(A) b)_j / det(A) as dual numbers
 /// (Cramer's rule evaluated in integer dual arithmetic), which for a regular A is the same
 /// statement as A x == b in the real and in the eps part.
-#[kani::proof]
-#[kani::unwind(4)]
-fn c12_lu_solve_exact_n2() {
-    let m = any_m2();
-    let ((b0r, b0e), b0) = gd();
-    let ((b1r, b1e), b1) = gd();
-    kani::assume(is_pow2_le8(m.det_re()));
+fn check_solve(m: &M2, ib: [ID; 2]) {
+    let b = [Dual64::new(ib[0].0 as f64, ib[0].1 as f64), Dual64::new(ib[1].0 as f64, ib[1].1 as f64)];
     let lu = match LU::<Dual64, f64>::new(m.arr()) {
         Ok(lu) => lu,
         Err(_) => {
@@ -175,41 +229,81 @@ fn c12_lu_solve_exact_n2() {
             return;
         }
     };
-    let x: Array1<Dual64> = lu.solve(&arr1(&[b0, b1]));
+    let x: Array1<Dual64> = lu.solve(&arr1(&b));
+    let d = m.det_id();
+    let n0 = m.id(1, 1).mul(ib[0]).sub(m.id(0, 1).mul(ib[1]));
+    let n1 = m.id(0, 0).mul(ib[1]).sub(m.id(1, 0).mul(ib[0]));
+    assert!(is_quotient(x[0], n0, d), "solve: x[0] == (a11 b0 - a01 b1) / det(A) exactly, re and eps (<=> A x == b)");
+    assert!(is_quotient(x[1], n1, d), "solve: x[1] == (a00 b1 - a10 b0) / det(A) exactly, re and eps (<=> A x == b)");
+}
+#[kani::proof]
+#[kani::unwind(4)]
+fn c12_lu_solve_exact_n2_re() {
+    let m = re_m2();
+    let ((b0, _), (b1, _)) = (gi(), gi());
+    kani::assume(is_pow2_le8(m.det_re()));
     kani::cover!(m.swaps(), "solve: row-exchange path");
     kani::cover!(!m.swaps(), "solve: no-exchange path");
-    let (ib0, ib1) = (ID(b0r, b0e), ID(b1r, b1e));
-    let d = m.det_id();
-    let n0 = m.id(1, 1).mul(ib0).sub(m.id(0, 1).mul(ib1));
-    let n1 = m.id(0, 0).mul(ib1).sub(m.id(1, 0).mul(ib0));
-    assert!(is_quotient(x[0], n0, d), "solve: x[0] == (a11 b0 - a01 b1) / det(A) exactly, re and eps (<=> row 0/1 of A x == b)");
-    assert!(is_quotient(x[1], n1, d), "solve: x[1] == (a00 b1 - a10 b0) / det(A) exactly, re and eps (<=> row 0/1 of A x == b)");
+    check_solve(&m, [ID(b0, 0), ID(b1, 0)]);
+}
+fn check_solve_eps(t: usize) {
+    let m = tab_m2(t);
+    let ((e0, _), (e1, _)) = (gi(), gi());
+    check_solve(&m, [ID(TAB[t].1[0], e0), ID(TAB[t].1[1], e1)]);
+}
+#[kani::proof]
+#[kani::unwind(4)]
+fn c12_lu_solve_exact_n2_eps_t1() {
+    check_solve_eps(1);
+}
+#[kani::proof]
+#[kani::unwind(4)]
+fn c12_lu_solve_exact_n2_eps_t3() {
+    check_solve_eps(3);
 }
 
 // ------------------------------------------------------------------ (c) determinant
-/// Only the first pivot is divided by: no assumption beyond the grid.
-#[kani::proof]
-#[kani::unwind(4)]
-fn c12_lu_det_exact_n2() {
-    let m = any_m2();
+fn check_det(m: &M2) {
     let lu = match LU::<Dual64, f64>::new(m.arr()) {
         Ok(lu) => lu,
         Err(_) => return, // singular real part: covered by c12_lu_singular_n2
     };
     let d = lu.determinant();
-    kani::cover!(m.swaps(), "determinant: row-exchange path (sign flipped by the permutation parity)");
-    kani::cover!(!m.swaps(), "determinant: no-exchange path");
     assert!(d.re == m.det_re() as f64, "determinant().re == a00*a11 - a01*a10 (exact, sign incl. permutation parity)");
     assert!(d.eps == m.det_eps() as f64, "determinant().eps == derivative of a00*a11 - a01*a10 (Jacobi's formula), exact");
+}
+/// fully symbolic: only the first pivot is divided by, no assumption beyond the grid
+#[kani::proof]
+#[kani::unwind(4)]
+fn c12_lu_det_exact_n2() {
+    let m = any_m2();
+    kani::cover!(m.det_re() != 0 && m.swaps(), "determinant: row-exchange path (sign flipped by the permutation parity)");
+    kani::cover!(m.det_re() != 0 && !m.swaps(), "determinant: no-exchange path");
+    check_det(&m);
+}
+#[kani::proof]
+#[kani::unwind(4)]
+fn c12_lu_det_exact_n2_re() {
+    let m = re_m2();
+    kani::cover!(m.det_re() != 0 && m.swaps(), "determinant: row-exchange path");
+    kani::cover!(m.det_re() != 0 && !m.swaps(), "determinant: no-exchange path");
+    check_det(&m);
+}
+#[kani::proof]
+#[kani::unwind(4)]
+fn c12_lu_det_exact_n2_eps_t1() {
+    check_det(&tab_m2(1));
+}
+#[kani::proof]
+#[kani::unwind(4)]
+fn c12_lu_det_exact_n2_eps_t3() {
+    check_det(&tab_m2(3));
 }
 
 // ------------------------------------------------------------------ (d) inverse
 /// inverse() == adj(A) / det(A) exactly as dual numbers, entry by entry -- for a regular A the
-/// same statement as A A^-1 == I (re 1/0, eps 0).  One harness per column (all four entries
-/// in one harness run CBMC out of memory).
-fn check_inverse_col(j: usize) {
-    let m = any_m2();
-    kani::assume(is_pow2_le8(m.det_re()));
+/// same statement as A A^-1 == I (re 1/0, eps 0).
+fn check_inverse(m: &M2, col: usize) {
     let lu = match LU::<Dual64, f64>::new(m.arr()) {
         Ok(lu) => lu,
         Err(_) => {
@@ -218,10 +312,8 @@ fn check_inverse_col(j: usize) {
         }
     };
     let ia: Array2<Dual64> = lu.inverse();
-    kani::cover!(m.swaps(), "inverse: row-exchange path");
-    kani::cover!(!m.swaps(), "inverse: no-exchange path");
     let d = m.det_id();
-    if j == 0 {
+    if col == 0 {
         assert!(is_quotient(ia[(0, 0)], m.id(1, 1), d), "inverse[0][0] == a11 / det(A) exactly (re, eps)");
         assert!(is_quotient(ia[(1, 0)], m.id(1, 0).neg(), d), "inverse[1][0] == -a10 / det(A) exactly (re, eps)");
     } else {
@@ -229,13 +321,32 @@ fn check_inverse_col(j: usize) {
         assert!(is_quotient(ia[(1, 1)], m.id(0, 0), d), "inverse[1][1] == a00 / det(A) exactly (re, eps)");
     }
 }
-#[kani::proof]
-#[kani::unwind(4)]
-fn c12_lu_inverse_exact_n2_col0() {
-    check_inverse_col(0);
+/// one column of the inverse per harness (CBMC's slicer drops the other column's arithmetic)
+macro_rules! inv_re {
+    ($name:ident, $col:literal) => {
+        #[kani::proof]
+        #[kani::unwind(4)]
+        fn $name() {
+            let m = re_m2();
+            kani::assume(is_pow2_le8(m.det_re()));
+            kani::cover!(m.swaps(), "inverse: row-exchange path");
+            kani::cover!(!m.swaps(), "inverse: no-exchange path");
+            check_inverse(&m, $col);
+        }
+    };
 }
-#[kani::proof]
-#[kani::unwind(4)]
-fn c12_lu_inverse_exact_n2_col1() {
-    check_inverse_col(1);
+inv_re!(c12_lu_inverse_exact_n2_re_col0, 0);
+inv_re!(c12_lu_inverse_exact_n2_re_col1, 1);
+macro_rules! inv_eps {
+    ($name:ident, $t:literal, $col:literal) => {
+        #[kani::proof]
+        #[kani::unwind(4)]
+        fn $name() {
+            check_inverse(&tab_m2($t), $col);
+        }
+    };
 }
+inv_eps!(c12_lu_inverse_exact_n2_eps_t1_col0, 1, 0);
+inv_eps!(c12_lu_inverse_exact_n2_eps_t1_col1, 1, 1);
+inv_eps!(c12_lu_inverse_exact_n2_eps_t3_col0, 3, 0);
+inv_eps!(c12_lu_inverse_exact_n2_eps_t3_col1, 3, 1);
